@@ -11,13 +11,13 @@ MANIFEST = {
     "C13": {
         "technique": "Lean 4 proof (invariants of a model of the Server client write path over all histories of writes, send outcomes, suspend/resume and peer reads) + tie by translation (tools/gen_server.py translates ClientImpl::write/read/suspend/resume, the write-ready branch of run(), Socket::send/recv and mapEvents/unmapEvents from the current sources into Lean on every run; theorems translated body = model step) + differential correspondence model vs real Server on a socket pair with interposed send()",
         "text": "Theorems over all operation histories of the Lean model of ClientImpl::write/read/suspend/resume and the write-ready branch of Server::run (stream_exact, postponed_is_backlog, onWrite_iff_drained, interest_inv, suspended_no_read; suspended_no_read_batch for several clients with events pending in one poll batch); the model is tied to the current Server.cpp/Socket.cpp on every run by executing identical op lines on a real Server whose send() is interposed with scripted outcomes (exhaustive fault sequences + random histories, ASan/UBSan), and by an independent Python byte-stream reference evaluated on the implementation's observations (received stream, return/postponed values, send-buffer size, callback log, intercepted sends, epoll interest). Tie by translation (round 7): lean/Nstd/Generated/ServerTr.lean is regenerated from the CURRENT Server.cpp / Socket.cpp (after g++ -E) on every run; PropsTr13 (byte level: tr13_write_eq — backlog bytes, wire, interest, closing, return value, postponed, intercepted sends —, tr13_writeBranch_eq, tr13_suspend_eq, tr13_resume_eq, tr13_read_eq) and PropsTr (count level: tr_write_eq, tr_writeBranch_eq, tr_suspend_eq, tr_resume_eq, tr_read_eq, tr_read_hard_error, tr_readBranch_eq; socket_send_maps_wouldblock, socket_recv_maps_wouldblock, send_classification: the would-block mapping of Socket::send/recv for every system-call answer; tr_unmapEvents_eq, tr_mapEvents_spec, tr_dispatch_order, tr_flag_values) prove that each translated body IS the corresponding model step for every model state, data, kernel answer and flag set; a change of one of these bodies that changes behaviour makes the build of these files fail (a body outside the translated C++ subset is refused: broken tie).",
-        "note": "Trusted: Lean kernel + the three standard axioms; tools/gen_server.py (tokenizer, parser, continuation-passing translation of if/else, switch with fall-through, break/continue/return, SSA locals, flag and integer expressions; assumptions: integers are mathematical integers and the casts (usize)/(int)/(ssize) are the identity on the paths where they occur, flag constants are distinct single bits (checked), operands of && || ?: are free of side effects in the subset, Buffer::reserve keeps the content, integer bit arithmetic and Buffer::capacity are uninterpreted values the theorems quantify over) and the hand-written meaning of the primitives (TrC13.lean / TrC14.lean: which model field a C++ member is, what send/recv answer, that the harness callback removes the client in onClosed); translated from the current source and proved equal to the model: ClientImpl::write/read/suspend/resume, the read and write-ready branches of run(), Socket::send, the first switch of Socket::recv, mapEvents, unmapEvents; hand-translated and only tied by the correspondence run: the closing loop, Poll::set/remove/poll, one poll round per `ready` op; the kernel delivers bytes accepted by send() in order (checked by the harness on a socket pair) and reports a socket pair with free buffer space writable; Buffer behaves as a byte queue (C08); the byte-stream theorems use the one-client model (one poll round per `ready` op); the clause about suspended clients is additionally proved over the event-loop model of C14 with any number of clients and the poll's pending batch (PropsC13Batch: set_purges_pending_batch, suspended_has_no_pending_read, suspended_no_read_batch, onRead_only_from_poll) and run on the real Server in a second stream (2..5 clients fetched in one epoll_wait batch, suspend/resume from other clients' / timers' / listeners' callbacks; monitor: no onRead between suspend and resume); peer hang-up and read(…,0) are outside the C13 model; the C13 model assumes that onClosed removes the client (as the harness callback does) — peer_stream_prefix depends on it (a kept client that writes again after a failed write-ready send would leave a gap).",
+        "note": "Trusted: Lean kernel + the three standard axioms; tools/gen_server.py (tokenizer, parser, continuation-passing translation of if/else, switch with fall-through, break/continue/return, SSA locals, flag and integer expressions; assumptions: integers are mathematical integers and the casts (usize)/(int)/(ssize) are the identity on the paths where they occur, flag constants are distinct single bits (checked), operands of && || ?: are free of side effects in the subset, Buffer::reserve keeps the content, integer bit arithmetic and Buffer::capacity are uninterpreted values the theorems quantify over) and the hand-written meaning of the primitives (TrC13.lean / TrC14.lean: which model field a C++ member is, what send/recv answer, that the harness callback removes the client in onClosed); translated from the current source and proved equal to the model: ClientImpl::write/read/suspend/resume, the read and write-ready branches of run(), Socket::send, the first switch of Socket::recv, mapEvents, unmapEvents; also translated (second leg, PropsTrLoop: tr_pollSet_eq, tr_pollRemove_eq, tr_timerIter_eq, tr_closingIter_eq, tr_closingIter_exit): Poll::set, Poll::remove and one iteration of the timer loop and of the closing loop of run(), proved equal to pollSet / pollRemove / the .timers / .closing case of step of the event-loop model (iterators as find results, references as cells, loops as one iteration; trusted: the meaning of the primitives PPoll / PTimer / PClosing in TrC14.lean); hand-translated and only tied by the correspondence run: Poll::poll, the one-client closing round of the C13 model, one poll round per `ready` op; the kernel delivers bytes accepted by send() in order (checked by the harness on a socket pair) and reports a socket pair with free buffer space writable; Buffer behaves as a byte queue (C08); the byte-stream theorems use the one-client model (one poll round per `ready` op); the clause about suspended clients is additionally proved over the event-loop model of C14 with any number of clients and the poll's pending batch (PropsC13Batch: set_purges_pending_batch, suspended_has_no_pending_read, suspended_no_read_batch, onRead_only_from_poll) and run on the real Server in a second stream (2..5 clients fetched in one epoll_wait batch, suspend/resume from other clients' / timers' / listeners' callbacks; monitor: no onRead between suspend and resume); peer hang-up and read(…,0) are outside the C13 model; the C13 model assumes that onClosed removes the client (as the harness callback does) — peer_stream_prefix depends on it (a kept client that writes again after a failed write-ready send would leave a gap).",
         "design_ref": "DESIGN.md 3/C13",
     },
     "C14": {
         "technique": "Lean 4 proof (invariants of a small-step transition-system model of Server::run + Socket::Poll over all histories, callback scripts and kernel answers) + tie by translation of the client-level bodies (tools/gen_server.py, PropsTr) + differential correspondence model vs real Server under virtual time with interposed clock_gettime/epoll_wait/epoll_ctl/send",
-        "text": "64 theorems (PropsC14, PropsC14R) over ALL histories of the Lean model (API calls, arbitrary callback scripts that create and remove timers, socket-pair clients, listeners and establishers also from inside callbacks (Act.mkTimer/mkPair/mkListener/mkEst, rm*), any epoll_wait answer in any order, any time advance, any send outcome): no_fault (no null/dangling pointer use), timer_queue_exact, timer_not_early, timer_order, timer_once_per_interval, timer_intervals_positive, activation_moves_due_forward, poll_timeout_is_next_due, callbacks_only_to_live, removed_never_called (all four object kinds, also with events pending), dispatch_only_registered_kinds, client_interest, suspended_client_no_onRead, failed_io_then_onClosed at history level (a queued client gets onClosed or is deleted before run() polls again; membership in the closing list persists across all calls and scripts), run_returns_only_on_interrupt, interrupt_returns_run, interrupt_never_lost, interrupt_eventually_returns (from any reachable state with a pending interrupt run() returns after finitely many steps for every kernel answer that reports the event descriptor — well-founded measure; for quiet callback scripts), kernel_is_asked_again (quiet scripts) and kernel_is_asked_again_any_scripts (ARBITRARY scripts — timer creation, read, write inside callbacks — under ClockOk and ClosingCalm), pending_event_dispatched_or_pruned, ready_eventually_dispatched (liveness over infinite runs: under the explicit kernel-fairness hypothesis KernelFair, after every point of the run there is a later step at which run() has returned, or a non-empty event of the socket is handed to the dispatch switch, or set()/remove() on that socket pruned its event), event_pruned_only_through_its_socket, ready_eventually_dispatched_untouched_socket, interrupt_eventually_returns_any_scripts (the same as interrupt_eventually_returns for arbitrary scripts under ClockOk and ClosingCalm), poll_set_remove_keep_other_events, poll_set_covering_keeps_event, connect_event_outcome (exactly one of onConnected/onAbolished per connect event), connect_event_unregisters, accept_event_outcome (interrupt() of other threads as two interleaved moves), clear_removes_everything, no_callback_after_clear, clear_stale_wakeup_is_harmless (Server::clear() outside run()); round 7 (PropsC14R): no_client_is_removed_between_steps and closing_loop_never_deletes (the deleteClient branch of the closing loop, Server.cpp 277, is dead in the repaired code: whenever the loop pops a client it has a callback and is not _removed), server_set_never_takes_early_return (no set() of suspend/resume/write/write-ready on a registered client asks for the flags already registered, so the early return of Poll::set is not reachable from Server). Tie by translation (PropsTr, 14 theorems): ClientImpl::suspend/resume/write/read, the read and write-ready branches of the dispatch chain of run() and the order of its flag tests, Socket::send / Socket::recv (would-block mapping for every system-call answer), mapEvents / unmapEvents are translated from the CURRENT sources on every run (tools/gen_server.py -> lean/Nstd/Generated/ServerTr.lean) and proved equal to the model functions suspend / resume / write / read / writeReady / unmap for every model state, kernel answer and flag set. The model is tied to the current Server.cpp/Socket.cpp on every run: identical op lines are executed on a real Server (socket pairs, loop-back listeners and establishers, virtual clock, epoll_wait answered from the really-ready set permuted/truncated by the schedule, callback scripts) and on the compiled model; an independent Python reference timer scheduler predicts pure timer programs exactly and a monitor evaluates removed_never_called / timer_not_early / timer_order / timeliness / live-object sets directly on the implementation's callback log.",
-        "note": "Trusted: Lean kernel + the three standard axioms; hand translation of the timer loop, the closing loop, the accept/connect branches of run() and of Poll::set/remove/poll into the model (validated by the correspondence run, not proved); translated from the current source and proved equal to the model (tools/gen_server.py + PropsTr; trusted there: the translator, the meaning of the primitives in TrC14.lean, integers as mathematical integers, casts as identity, POSIX: a failing call sets errno != 0): ClientImpl::suspend/resume/write/read, read and write-ready branches, Socket::send/recv, mapEvents/unmapEvents. Modelled rather than verified: MultiMap as a key-sorted FIFO multimap with lower-bound find (C01 incl. the repair of D1 — without it the check reports D19 with a 2-timer failing input), PoolList/HashSet/HashMap as reference containers (C02/C03), kernel epoll/eventfd/socket readiness (assumption; the harness prints ENV-FAIL when the kernel deviates), interrupt() from another thread as two moves (flag under the mutex, then event-descriptor write) interleaved arbitrarily with run() in the theorems — the correspondence run exercises interrupt() from callbacks, between runs, from inside epoll_wait and (op `runmt`; timers-only programs and programs with idle registered sockets) from a real second thread racing with run(); weak-memory effects on the unlocked read of _interrupted are not modelled, host-name resolving establishers not modelled (Server::clear() is: Move.clear), failing connects are injected through an interposed getsockopt(SO_ERROR) (a real refused loop-back connect is not deterministic), peers of accepted/connected TCP clients never close in the correspondence runs. Hypotheses of the liveness theorems (explicit in the statements): KernelFair (environment: if the kernel is asked again and again, then again and again an answer reports the socket ready — satisfiability of it for a concrete infinite run is exhibited only on a finite prefix, example exLive), ClosingCalm (an onClosed callback does not make a client fail again; without it the closing loop of the C++ never ends either; implied by scripts without read/write), ClockOk (the clock is not behind the time the timer loop sampled; established by entering run() and by every poll step). 'Dispatched' means handed to the dispatch switch of run() (HandsOut); that the callback is of a registered kind is dispatch_only_registered_kinds. OPEN (not proved): real-time bounds (the model proves only that run() never sleeps past a due timer); the 64-event cap of one epoll_wait is not modelled (it is the reason KernelFair says 'some later answer'). Not modelled (docs/server.md, coverage table): host-name resolving establishers, failing socket options (Server.cpp 193/375/400); executed by the harness without a model move because the Server's state does not change: failing socket()/socketpair() inside listen/connect/pair (op failmk), socket options that succeed (op opt); a failing accept() after a readiness report is in the model and executed (forced listener report). The branch-hit table of run() (coverage.branch_hits, 41 branches/situations) is measured on every run; 3 are never hit and explained in coverage.branches_never_hit. Top-level API moves may interleave with steps while run() is active: an over-approximation for the safety theorems, not a claim that remove() is thread-safe. The model mirrors the repaired code (fixes/server/01, 02, 03: Server::time raises an interval below 1 ms to 1 ms — with interval 0 the timer loop never ended and interrupt() could not make run() return).",
+        "text": "65 theorems (PropsC14, PropsC14R) over ALL histories of the Lean model (API calls, arbitrary callback scripts that create and remove timers, socket-pair clients, listeners and establishers also from inside callbacks (Act.mkTimer/mkPair/mkListener/mkEst, rm*), any epoll_wait answer in any order, any time advance, any send outcome): no_fault (no null/dangling pointer use), timer_queue_exact, timer_not_early, timer_order, timer_once_per_interval, timer_intervals_positive, activation_moves_due_forward, poll_timeout_is_next_due, callbacks_only_to_live, removed_never_called (all four object kinds, also with events pending), dispatch_only_registered_kinds, client_interest, suspended_client_no_onRead, failed_io_then_onClosed at history level (a queued client gets onClosed or is deleted before run() polls again; membership in the closing list persists across all calls and scripts), run_returns_only_on_interrupt, interrupt_returns_run, interrupt_never_lost, interrupt_eventually_returns (from any reachable state with a pending interrupt run() returns after finitely many steps for every kernel answer that reports the event descriptor — well-founded measure; for quiet callback scripts), kernel_is_asked_again (quiet scripts) and kernel_is_asked_again_any_scripts (ARBITRARY scripts — timer creation, read, write inside callbacks — under ClockOk and ClosingCalm), pending_event_dispatched_or_pruned, ready_eventually_dispatched (liveness over infinite runs: under the explicit kernel-fairness hypothesis KernelFair, after every point of the run there is a later step at which run() has returned, or a non-empty event of the socket is handed to the dispatch switch, or set()/remove() on that socket pruned its event), event_pruned_only_through_its_socket, ready_eventually_dispatched_untouched_socket, interrupt_eventually_returns_any_scripts (the same as interrupt_eventually_returns for arbitrary scripts under ClockOk and ClosingCalm), poll_set_remove_keep_other_events, poll_set_covering_keeps_event, connect_event_outcome (exactly one of onConnected/onAbolished per connect event), connect_event_unregisters, accept_event_outcome (interrupt() of other threads as two interleaved moves), clear_removes_everything, no_callback_after_clear, clear_stale_wakeup_is_harmless (Server::clear() outside run()); round 7 (PropsC14R): no_client_is_removed_between_steps and closing_loop_never_deletes (the deleteClient branch of the closing loop, Server.cpp 277, is dead in the repaired code: whenever the loop pops a client it has a callback and is not _removed), server_set_never_takes_early_return (no set() of suspend/resume/write/write-ready on a registered client asks for the flags already registered, so the early return of Poll::set is not reachable from Server). failed_creation_leaves_no_trace (Move.failCreate: listen/connect/pair returning 0 are moves of all histories and leave no trace). Tie by translation (PropsTr 14 + PropsTrLoop 5 theorems): Poll::set and Poll::remove (tr_pollSet_eq, tr_pollRemove_eq, incl. the epoll_ctl calls made), one iteration of the timer loop (tr_timerIter_eq: re-queue before the callback, default timer, exit condition) and of the closing loop (tr_closingIter_eq, tr_closingIter_exit), ClientImpl::suspend/resume/write/read, the read and write-ready branches of the dispatch chain of run() and the order of its flag tests, Socket::send / Socket::recv (would-block mapping for every system-call answer), mapEvents / unmapEvents are translated from the CURRENT sources on every run (tools/gen_server.py -> lean/Nstd/Generated/ServerTr.lean) and proved equal to the model functions suspend / resume / write / read / writeReady / unmap for every model state, kernel answer and flag set. The model is tied to the current Server.cpp/Socket.cpp on every run: identical op lines are executed on a real Server (socket pairs, loop-back listeners and establishers, virtual clock, epoll_wait answered from the really-ready set permuted/truncated by the schedule, callback scripts) and on the compiled model; an independent Python reference timer scheduler predicts pure timer programs exactly and a monitor evaluates removed_never_called / timer_not_early / timer_order / timeliness / live-object sets directly on the implementation's callback log.",
+        "note": "Trusted: Lean kernel + the three standard axioms; hand translation of Poll::poll, of the accept/connect branches of run(), of remove(Timer&) and of the API functions into the model (validated by the correspondence run, not proved); translated from the current source and proved equal to the model (tools/gen_server.py + PropsTr; trusted there: the translator, the meaning of the primitives in TrC14.lean, integers as mathematical integers, casts as identity, POSIX: a failing call sets errno != 0): ClientImpl::suspend/resume/write/read, read and write-ready branches, Socket::send/recv, mapEvents/unmapEvents. Modelled rather than verified: MultiMap as a key-sorted FIFO multimap with lower-bound find (C01 incl. the repair of D1 — without it the check reports D19 with a 2-timer failing input), PoolList/HashSet/HashMap as reference containers (C02/C03), kernel epoll/eventfd/socket readiness (assumption; the harness prints ENV-FAIL when the kernel deviates), interrupt() from another thread as two moves (flag under the mutex, then event-descriptor write) interleaved arbitrarily with run() in the theorems — the correspondence run exercises interrupt() from callbacks, between runs, from inside epoll_wait and (op `runmt`; timers-only programs and programs with idle registered sockets) from a real second thread racing with run(); weak-memory effects on the unlocked read of _interrupted are not modelled, host-name resolving establishers not modelled (Server::clear() is: Move.clear), failing connects are injected through an interposed getsockopt(SO_ERROR) (a real refused loop-back connect is not deterministic), peers of accepted/connected TCP clients never close in the correspondence runs. Hypotheses of the liveness theorems (explicit in the statements): KernelFair (environment: if the kernel is asked again and again, then again and again an answer reports the socket ready — satisfiability of it for a concrete infinite run is exhibited only on a finite prefix, example exLive), ClosingCalm (an onClosed callback does not make a client fail again; without it the closing loop of the C++ never ends either; implied by scripts without read/write), ClockOk (the clock is not behind the time the timer loop sampled; established by entering run() and by every poll step). 'Dispatched' means handed to the dispatch switch of run() (HandsOut); that the callback is of a registered kind is dispatch_only_registered_kinds. OPEN (not proved): real-time bounds (the model proves only that run() never sleeps past a due timer); the 64-event cap of one epoll_wait is not modelled (it is the reason KernelFair says 'some later answer'). Not modelled (docs/server.md, coverage table): host-name resolving establishers (needs a real resolver thread: not driven), a failing socket option after a successful accept (Server.cpp 370-375). Failing creations (socket()/socketpair()/bind()/listen()/connect()/setsockopt failing inside listen/connect/pair: op failmk with interposed calls) are Move.failCreate (state unchanged); a socket option failing at the connect event (op ofail, interposed setsockopt) is the same model transition as a failed connect (EnvOp.connFail: Poll::remove, onAbolished); socket options that succeed (op opt) have no model effect; a failing accept() after a readiness report is in the model and executed (forced listener report). The branch-hit table of run() (coverage.branch_hits, 41 branches/situations) is measured on every run; 3 are never hit and explained in coverage.branches_never_hit. Top-level API moves may interleave with steps while run() is active: an over-approximation for the safety theorems, not a claim that remove() is thread-safe. The model mirrors the repaired code (fixes/server/01, 02, 03: Server::time raises an interval below 1 ms to 1 ms — with interval 0 the timer loop never ended and interrupt() could not make run() return).",
         "design_ref": "DESIGN.md 3/C14",
     },
 }
@@ -1238,8 +1238,8 @@ def check_c14(ctx):
             "ready_eventually_dispatched is proved under the explicit hypotheses KernelFair (environment), ClosingCalm (an onClosed callback does not make a client fail again — a script that reads a closed client again inside onClosed re-queues it forever, in the C++ as well) and ClockOk; KernelFair of a concrete infinite run is exhibited only on a finite prefix (exLive)",
             "interrupt_eventually_returns_any_scripts and kernel_is_asked_again_any_scripts hold for arbitrary scripts under ClosingCalm; the class of scripts between 'no read/write' (which implies ClosingCalm) and ClosingCalm itself is characterised only semantically",
             "interrupt() racing with run(): proved for the two-move model (flag, then event descriptor) under sequential consistency; exercised with a real second thread (op runmt) in timers-only programs and with idle clients/listeners registered",
-            "not modelled: resolver-based establishers (connect by host name), failing socket options (Server.cpp 193/375/400), failing bind/listen/connect calls after a successful socket(); a failing connect is injected through the interposed getsockopt(SO_ERROR); the 64-event cap of one epoll_wait",
-            "hand-translated, tied only by the correspondence run: the timer loop, the closing loop, the accept/connect branches of run(), Poll::set/remove/poll (the client-level bodies, Socket::send/recv and mapEvents/unmapEvents are translated from the current source: PropsTr)",
+            "not modelled: resolver-based establishers (connect by host name), a socket option failing after a successful accept (Server.cpp 370-375); a failing connect is injected through the interposed getsockopt(SO_ERROR); the 64-event cap of one epoll_wait",
+            "hand-translated, tied only by the correspondence run: Poll::poll, the accept/connect branches of run(), remove(Timer&) (translated from the current source: the client-level bodies, Socket::send/recv, mapEvents/unmapEvents, Poll::set/remove, one iteration of the timer loop and of the closing loop: PropsTr, PropsTrLoop)",
         ]
         ctx.log(f"{len(hs)} histories, {ctx.cov['evaluations']} op lines, {len(diffs)} disagreement(s), monitor failures {len(st.fail)}; callbacks {st.ev}; env-fail {st.envfail}")
         # a history in which the kernel did not behave as assumed is not evidence of anything
